@@ -584,8 +584,16 @@ class HandleEnv:
         return self.clock
 
     def client_done(self):
-        """The client has sent Terminate or its socket is at EOF with a failed read."""
-        return self.client_stream.failed or self.client_stream.pos >= len(self.client_bytes)
+        """The client has sent Terminate (the message pgcat read last) or its socket is at EOF."""
+        st = self.client_stream
+        if st.failed or st.pos >= len(self.client_bytes):
+            return True
+        k = self.boundaries.get(st.pos)
+        if k:
+            starts = {v: p for p, v in self.boundaries.items()}
+            b = self.client_bytes[starts[k - 1]]
+            return b.concrete and b.v == ord('X')
+        return False
 
     def set_paused(self, v):
         self.paused_cell.fields[0] = BV(1, int(v))
@@ -854,7 +862,7 @@ def collect_native(res, session=0):
         if r['phase'] in (1, 3):
             seen_a.add(r['conn'])
             reqs.append(dict(g=r['g'], backend=r['conn'] // 100, bytes=bvs(r['hex']), delivered=[bvs(d) for d in r['delivered']],
-                             status_after=BV(8, r['status_after']), client_done=(r['phase'] == 3),
+                             status_after=BV(8, r['status_after']), client_done=(True if r['phase'] == 3 else None),
                              params_before={k: v.encode('latin1') for k, v in r['before'].get('params', {}).items()} or None))
         elif r['phase'] == 2 and r['conn'] in seen_a and r['conn'] not in probed:
             # the next client got the very same server connection: this is the hand-over
@@ -962,7 +970,11 @@ def judge(data, script, dec, expect_forward=None, cache_on=False, denied=None, e
         cm = conc(m)
         if cm is not None and cm[:1] == b'Q' and POOLER_SQL.match(cm[5:-1]):
             r['origin'] = 'pooler'
-            if cm[5:-1] == b'ROLLBACK' and not r['client_done'] and not any(e[0] == 'idle_timeout' for e in data['events']):
+            later_client = any(code_of(x['bytes']) in 'QPBDES' and x['g'] > r['g'] and not (conc(x['bytes']) or b'')[:1] == b'Q' or
+                               (x['g'] > r['g'] and conc(x['bytes']) is not None and conc(x['bytes'])[:1] == b'Q' and not POOLER_SQL.match(conc(x['bytes'])[5:-1]))
+                               for x in data['reqs'])
+            mid = (not r['client_done']) if r['client_done'] is not None else later_client
+            if cm[5:-1] == b'ROLLBACK' and mid and not any(e[0] == 'idle_timeout' for e in data['events']):
                 V.append(('C01', 'H/pooler-rollback-mid-session', 'the pooler rolls the client\'s transaction back on backend %d while the client is still connected' % bi))
             continue
         if cache_on and cm is not None and cm[:1] in (b'P', b'C'):
@@ -1064,16 +1076,24 @@ def skippable_flags(script, cache_on=False):
     statement the server already has and Close of a named statement are answered by the pooler (documented difference)."""
     out = []
     buffered = 0
+    open_batch = []
     copy = False
-    for m in script:
+    for i, m in enumerate(script):
         c = code_of(m)
         if c in 'PBDEC':
             buffered += 1
+            open_batch.append(i)
             out.append(cache_on and c in 'PC')
         elif c == 'S':
             out.append(buffered == 0 or cache_on)
             buffered = 0
+            open_batch = []
         elif c == 'Q':
+            # extended messages not closed by a Sync before a simple Query: pgcat keeps them buffered until the next Sync, i.e.
+            # after the Query (like Flush, outside the claim: request shapes end their batches with Sync)
+            for j in open_batch:
+                out[j] = True
+            open_batch = []
             out.append(False)
             copy = _starts_copy_in(m)
         elif c in 'dcf' and copy:
